@@ -18,6 +18,25 @@
 //!         "slice_strict_bulk";
 //!         "build_err" instead of all of these if the column could not be built (a harness problem, never
 //!         expected).
+//!
+//! Further kinds of cases (input key "mode"; absent = the plain column above):
+//!   "asm"    : the column is a parent ASSEMBLED with `try_new` over children that were built longer and then cut with
+//!              `Array::slice` (input "assemble": {"kind": Struct|List|LargeList|Map|FixedSizeList|Union|SparseUnion,
+//!              "children":[{"field","rows","window":[o,l]}…], "validity":[bool…]|null, "offsets", "type_ids", "n"});
+//!              "field" / "rows" are the parent's field and logical rows (computed by the generator from the children's
+//!              rows, so the driver's comparison `Spec.decode(whole view) = rows` checks the assembly itself); the
+//!              parent is then sliced by "windows" like every other column.  kind SparseUnion: a sparse union (no
+//!              offsets; children as long as the parent) — the crate refuses it, slice and whole alike.
+//!   "rb"     : "field" is a non-nullable Struct whose children are the COLUMNS of a record batch; the batch is sliced
+//!              with `RecordBatch::slice`, ALL columns are read: item-wise through `Deserializer::from_record_batch` +
+//!              `get(i)`, in bulk through `serde_arrow::from_record_batch::<Vec<_>>(&rb.slice(o, l))` itself.  The
+//!              dumped views are those of `StructArray::from(batch)`: a Struct view without validity over the columns'
+//!              views, i.e. the root reader `Deserializer::new` builds.
+//!   "big"    : a plain column of 1 000 – 5 000 rows.
+//! Typed targets: output "labels" lists the labels read; for each label L: "L_ty", "whole_L", "slice_L", "whole_L_bulk",
+//! "slice_L_bulk".  typed / strict as above; wide (every integer target i64 / u64, every float f64), swap (String <-> &str,
+//! ByteBuf <-> &[u8]), anyrec (every column `deserialize_any`), and the input's "targets" ([[label, ty]…], other shapes
+//! the column's reader answers or refuses, wiregen::variant_targets).
 use crate::arrowsrc;
 use crate::dump::view_to_json;
 use crate::dynde::Target;
@@ -233,9 +252,267 @@ pub fn gen(ctx: &Ctx) -> Vec<Value> {
             "windows": windows,
             "backend": backend,
             "batch": batch,
+            "targets": var_targets(&mut r, &[&field]),
         }));
     }
+    // ---- further kinds (see the module doc): assembled parents, whole record batches, big columns, sparse unions
+    let scale = if ctx.thorough() { 10 } else { 1 };
+    let mut c = total;
+    let mut push = |out: &mut Vec<Value>, sub: u64, mut v: Value| {
+        v["id"] = json!(format!("slice-{c:06}"));
+        v["seed"] = json!(sub);
+        v["backend"] = json!("arrow");
+        v["batch"] = json!(false);
+        out.push(v);
+        c += 1;
+    };
+    for kind in ["Struct", "List", "LargeList", "Map", "FixedSizeList", "Union", "SparseUnion"] {
+        for _ in 0..(if kind == "LargeList" { 30 } else { 70 }) * scale {
+            let mut r = rng.fork();
+            let sub = r.0;
+            let v = gen_assembled(&mut r, kind);
+            push(&mut out, sub, v);
+        }
+    }
+    for _ in 0..200 * scale {
+        let mut r = rng.fork();
+        let sub = r.0;
+        let v = gen_rb(&mut r);
+        push(&mut out, sub, v);
+    }
+    // (thorough: 72 big columns — each is several MB of outcomes)
+    for k in 0..24 * (if ctx.thorough() { 3 } else { 1 }) {
+        let mut r = rng.fork();
+        let sub = r.0;
+        let v = gen_big(&mut r, k);
+        push(&mut out, sub, v);
+    }
     out
+}
+
+/// two further record targets: per column one of the other shapes its reader answers or refuses
+fn var_targets(r: &mut Rng, cols: &[&Value]) -> Value {
+    let mut out = Vec::new();
+    for k in 0..2 {
+        let per_col: Vec<Value> = cols
+            .iter()
+            .map(|f| {
+                let vs = crate::wiregen::variant_targets(r, f);
+                let ty = r.pick(&vs).clone();
+                // keep the Option layer of a nullable column half of the time
+                if f["nullable"].as_bool().unwrap_or(false) && r.bool() {
+                    json!({ "option": ty })
+                } else {
+                    ty
+                }
+            })
+            .collect();
+        let ty = if r.chance(1, 5) {
+            json!({ "tuple": per_col })
+        } else {
+            json!({"struct": cols.iter().zip(&per_col).map(|(f, t)| json!([f["name"], t])).collect::<Vec<_>>()})
+        };
+        out.push(json!([format!("var{k}"), ty]));
+    }
+    Value::Array(out)
+}
+
+/// a child built longer than needed: (field, all rows, offset of the part that is used)
+fn gen_child(r: &mut Rng, field: Value, need: usize) -> (Value, Vec<Value>, usize) {
+    let pre = match r.below(5) {
+        0 => 0,
+        1 => 1 + r.usize(7),
+        2 => 8,
+        _ => 9 + r.usize(12),
+    };
+    let post = r.usize(4);
+    let rows = lgen::gen_rows(r, &field, pre + need + post);
+    (field, rows, pre)
+}
+
+fn child_json(c: &(Value, Vec<Value>, usize), need: usize) -> Value {
+    json!({"field": c.0, "rows": c.1, "window": [c.2, need]})
+}
+
+fn gen_validity(r: &mut Rng, nullable: bool, len: usize) -> Vec<bool> {
+    (0..len).map(|_| !nullable || !r.chance(1, 4)).collect()
+}
+
+fn validity_json(nullable: bool, valid: &[bool]) -> Value {
+    if nullable {
+        json!(valid)
+    } else {
+        Value::Null
+    }
+}
+
+/// a parent over children that were cut with `Array::slice` before the parent is assembled
+fn gen_assembled(r: &mut Rng, kind: &str) -> Value {
+    let len = gen_len(r);
+    let depth = |r: &mut Rng| r.usize(2);
+    // (a non-nullable Union child with a nullable variant is refused by `try_new` of Struct / List / Map parents, which
+    // look at the logical nulls: Union children only below Union parents)
+    let child_field = |r: &mut Rng, name: &str, d: usize| loop {
+        let f = lgen::gen_field(r, name, d);
+        if f["dt"]["t"] != "Union" {
+            return f;
+        }
+    };
+    let nullable = kind != "Union" && kind != "SparseUnion" && r.bool();
+    let valid = gen_validity(r, nullable, len);
+    let (field, rows, asm) = match kind {
+        "Struct" => {
+            let k = 1 + r.usize(3);
+            let cs: Vec<_> = ["a", "b", "c"][..k]
+                .iter()
+                .map(|nm| {
+                    let d = depth(r);
+                    let f = child_field(r, nm, d);
+                    gen_child(r, f, len)
+                })
+                .collect();
+            let rows: Vec<Value> = (0..len)
+                .map(|i| if valid[i] { json!({"struct": cs.iter().map(|c| json!([c.0["name"], c.1[c.2 + i]])).collect::<Vec<_>>()}) } else { Value::Null })
+                .collect();
+            let dt = json!({"t": "Struct", "fields": cs.iter().map(|c| c.0.clone()).collect::<Vec<_>>()});
+            let asm = json!({"kind": kind, "validity": validity_json(nullable, &valid), "children": cs.iter().map(|c| child_json(c, len)).collect::<Vec<_>>()});
+            (lgen::mk_field("c", nullable, dt), rows, asm)
+        }
+        "List" | "LargeList" | "Map" => {
+            let mut offs = vec![r.usize(3)];
+            for _ in 0..len {
+                let last = *offs.last().unwrap();
+                offs.push(last + r.usize(4));
+            }
+            let need = *offs.last().unwrap() + r.usize(3);
+            if kind == "Map" {
+                let key_dt = if r.bool() { json!({"t": "Utf8"}) } else { json!({"t": "Int32"}) };
+                let ks = gen_child(r, lgen::mk_field("key", false, key_dt.clone()), need);
+                let d = depth(r);
+                let vf = child_field(r, "value", d);
+                let vs = gen_child(r, vf, need);
+                let rows: Vec<Value> = (0..len)
+                    .map(|i| if valid[i] { json!({"map": (offs[i]..offs[i + 1]).map(|j| json!([ks.1[ks.2 + j], vs.1[vs.2 + j]])).collect::<Vec<_>>()}) } else { Value::Null })
+                    .collect();
+                let asm = json!({"kind": kind, "validity": validity_json(nullable, &valid), "offsets": offs, "children": [child_json(&ks, need), child_json(&vs, need)]});
+                (lgen::mk_field("c", nullable, lgen::map_dt(key_dt, vs.0.clone())), rows, asm)
+            } else {
+                let d = depth(r);
+                let ef = child_field(r, "element", d);
+                let el = gen_child(r, ef, need);
+                let rows: Vec<Value> =
+                    (0..len).map(|i| if valid[i] { json!({"list": (offs[i]..offs[i + 1]).map(|j| el.1[el.2 + j].clone()).collect::<Vec<_>>()}) } else { Value::Null }).collect();
+                let asm = json!({"kind": kind, "validity": validity_json(nullable, &valid), "offsets": offs, "children": [child_json(&el, need)]});
+                (lgen::mk_field("c", nullable, lgen::list_dt(kind, el.0.clone(), 0)), rows, asm)
+            }
+        }
+        "FixedSizeList" => {
+            let n = 1 + r.usize(3);
+            let d = depth(r);
+            let ef = child_field(r, "element", d);
+            let el = gen_child(r, ef, len * n);
+            let rows: Vec<Value> =
+                (0..len).map(|i| if valid[i] { json!({"list": (i * n..(i + 1) * n).map(|j| el.1[el.2 + j].clone()).collect::<Vec<_>>()}) } else { Value::Null }).collect();
+            let asm = json!({"kind": kind, "validity": validity_json(nullable, &valid), "n": n, "children": [child_json(&el, len * n)]});
+            (lgen::mk_field("c", nullable, lgen::list_dt(kind, el.0.clone(), n as i64)), rows, asm)
+        }
+        "Union" | "SparseUnion" => {
+            let k = 1 + r.usize(3);
+            let tids: Vec<usize> = (0..len).map(|_| r.usize(k)).collect();
+            let mut counts = vec![0usize; k];
+            let mut offs = Vec::new();
+            for t in &tids {
+                offs.push(counts[*t]);
+                counts[*t] += 1;
+            }
+            let sparse = kind == "SparseUnion";
+            let needs: Vec<usize> = (0..k).map(|v| if sparse { len } else { counts[v] + r.usize(3) }).collect();
+            let cs: Vec<_> = (0..k)
+                .map(|v| {
+                    let d = depth(r);
+                    let f = lgen::gen_field(r, ["A", "B", "C"][v], d);
+                    gen_child(r, f, needs[v])
+                })
+                .collect();
+            let rows: Vec<Value> = (0..len)
+                .map(|i| {
+                    let c = &cs[tids[i]];
+                    let j = if sparse { i } else { offs[i] };
+                    json!({"union": [tids[i].to_string(), c.1[c.2 + j]]})
+                })
+                .collect();
+            let mut dt = lgen::union_dt(cs.iter().map(|c| c.0.clone()).collect());
+            if sparse {
+                dt["mode"] = json!("Sparse");
+            }
+            let asm = json!({"kind": kind, "type_ids": tids, "offsets": if sparse { Value::Null } else { json!(offs) },
+                "children": cs.iter().zip(&needs).map(|(c, n)| child_json(c, *n)).collect::<Vec<_>>()});
+            (lgen::mk_field("c", false, dt), rows, asm)
+        }
+        other => panic!("gen_assembled: {other}"),
+    };
+    let windows = gen_windows(r, len);
+    let targets = var_targets(r, &[&field]);
+    json!({"mode": "asm", "field": field, "rows": rows, "windows": windows, "assemble": asm, "targets": targets})
+}
+
+/// a record batch of 2–4 columns, read as a whole
+fn gen_rb(r: &mut Rng) -> Value {
+    let k = 2 + r.usize(3);
+    let names = ["a", "b", "x y", "ä"];
+    let cols: Vec<Value> = (0..k)
+        .map(|i| {
+            let d = match r.below(10) {
+                0..=3 => 0,
+                4..=7 => 1,
+                _ => 2,
+            };
+            lgen::gen_field(r, names[i], d)
+        })
+        .collect();
+    let len = gen_len(r);
+    let col_rows: Vec<Vec<Value>> = cols.iter().map(|f| lgen::gen_rows(r, f, len)).collect();
+    let rows: Vec<Value> = (0..len).map(|i| json!({"struct": cols.iter().zip(&col_rows).map(|(f, rs)| json!([f["name"], rs[i]])).collect::<Vec<_>>()})).collect();
+    let windows = gen_windows(r, len);
+    let targets = var_targets(r, &cols.iter().collect::<Vec<_>>());
+    let field = lgen::mk_field("r", false, json!({"t": "Struct", "fields": cols}));
+    json!({"mode": "rb", "field": field, "rows": rows, "windows": windows, "targets": targets})
+}
+
+/// a plain column of 1 000 – 5 000 rows (offsets far beyond one bitmap byte, large list offsets)
+fn gen_big(r: &mut Rng, k: usize) -> Value {
+    let t = |s: &str| json!({ "t": s });
+    let fixed: Vec<Value> = vec![
+        lgen::mk_field("c", true, t("Int32")),
+        lgen::mk_field("c", true, t("Boolean")),
+        lgen::mk_field("c", true, t("Utf8")),
+        lgen::mk_field("c", true, lgen::list_dt("List", lgen::mk_field("element", true, t("Int16")), 0)),
+        lgen::mk_field("c", true, lgen::list_dt("LargeList", lgen::mk_field("element", false, t("Utf8")), 0)),
+        lgen::mk_field("c", true, lgen::map_dt(t("Utf8"), lgen::mk_field("value", true, t("Int64")))),
+        lgen::mk_field("c", true, json!({"t": "Struct", "fields": [lgen::mk_field("x", true, t("Int8")), lgen::mk_field("y", false, t("Utf8View"))]})),
+        lgen::mk_field("c", true, lgen::list_dt("FixedSizeList", lgen::mk_field("element", true, t("Boolean")), 3)),
+        lgen::mk_field("c", false, lgen::union_dt(vec![lgen::mk_field("I", false, t("Int32")), lgen::mk_field("S", true, t("Utf8"))])),
+        lgen::mk_field("c", true, json!({"t": "Dictionary", "key": t("UInt16"), "value": t("Utf8")})),
+        lgen::mk_field("c", true, json!({"t": "FixedSizeBinary", "n": 3})),
+        lgen::mk_field("c", true, t("BinaryView")),
+    ];
+    let field = if k % 24 < fixed.len() {
+        fixed[k % 24].clone()
+    } else {
+        let d = r.usize(2);
+        lgen::gen_field(r, "c", d)
+    };
+    let len = if k % 3 == 2 { 3000 + r.usize(2001) } else { 1000 + r.usize(1001) };
+    let rows = lgen::gen_rows(r, &field, len);
+    let mut windows = gen_windows(r, len);
+    for _ in 0..20 {
+        // the final window keeps a few hundred rows
+        if windows.last().map(|w| w[1].as_u64().unwrap() >= 300).unwrap_or(false) {
+            break;
+        }
+        windows = gen_windows(r, len);
+    }
+    json!({"mode": "big", "field": field, "rows": rows, "windows": windows, "targets": []})
 }
 
 // ------------------------------------------------------------------------------------------------ exec
@@ -264,50 +541,140 @@ fn read_items(de: &serde_arrow::Deserializer<'_>, len: usize, ty: &Value) -> Vec
     (0..len).map(|i| outcome::run(|| Target(ty).deserialize(de.get(i).expect("Deserializer::get(i) for i < len")))).collect()
 }
 
-/// the record target a user would naturally write for the one-column batch: `struct R { <name>: T }`
-fn typed_target(fieldj: &Value) -> Value {
-    json!({"struct": [[fieldj["name"], crate::wiregen::natural_target(fieldj)]]})
+/// the columns a record of the case has: the single column, or (mode "rb") the children of the root struct
+fn columns_of(input: &Value) -> Vec<Value> {
+    if input["mode"].as_str() == Some("rb") {
+        input["field"]["dt"]["fields"].as_array().cloned().unwrap_or_default()
+    } else {
+        vec![input["field"].clone()]
+    }
 }
 
-/// the natural target without any `Option` layer, addressed as `(T,)`: null rows make the read fail
-fn strict_target(fieldj: &Value) -> Value {
-    fn strip_all(ty: &Value) -> Value {
-        match ty {
-            Value::Object(m) if m.contains_key("option") => strip_all(&m["option"]),
-            Value::Object(m) => Value::Object(m.iter().map(|(k, v)| (k.clone(), strip_all(v))).collect()),
-            Value::Array(a) => Value::Array(a.iter().map(strip_all).collect()),
-            v => v.clone(),
+fn map_types(ty: &Value, f: &dyn Fn(&str) -> Option<&'static str>) -> Value {
+    match ty {
+        Value::String(s) => match f(s) {
+            Some(t) => json!(t),
+            None => ty.clone(),
+        },
+        Value::Object(m) => Value::Object(m.iter().map(|(k, v)| (k.clone(), map_types(v, f))).collect()),
+        Value::Array(a) => Value::Array(a.iter().map(|v| map_types(v, f)).collect()),
+        v => v.clone(),
+    }
+}
+
+fn strip_all(ty: &Value) -> Value {
+    match ty {
+        Value::Object(m) if m.contains_key("option") => strip_all(&m["option"]),
+        Value::Object(m) => Value::Object(m.iter().map(|(k, v)| (k.clone(), strip_all(v))).collect()),
+        Value::Array(a) => Value::Array(a.iter().map(strip_all).collect()),
+        v => v.clone(),
+    }
+}
+
+/// the record targets read in every case, a pure function of the input: (label, target)
+///   typed  : the record a user would naturally write, `struct R { <col>: T, … }` (wiregen::natural_target per column)
+///   strict : the same without any `Option` layer, addressed as a tuple `(T, …)`: rows with a null anywhere FAIL
+///   wide   : every integer target widened to i64 / u64, every float target to f64
+///   swap   : String <-> &str, ByteBuf <-> &[u8]
+///   anyrec : every column through `deserialize_any`
+///   var0, var1 : the input's "targets"
+/// (columns of 1 000 rows and more: typed, strict, wide only)
+fn record_targets(input: &Value) -> Vec<(String, Value)> {
+    let cols = columns_of(input);
+    let nat: Vec<Value> = cols.iter().map(crate::wiregen::natural_target).collect();
+    let rec = |tys: Vec<Value>| json!({"struct": cols.iter().zip(tys).map(|(f, t)| json!([f["name"], t])).collect::<Vec<_>>()});
+    // (names of fields and variants come from lgen's fixed lists, none of which is a type word)
+    let widen = |s: &str| match s {
+        "i8" | "i16" | "i32" => Some("i64"),
+        "u8" | "u16" | "u32" => Some("u64"),
+        "f32" => Some("f64"),
+        _ => None,
+    };
+    let swap = |s: &str| match s {
+        "string" => Some("str"),
+        "str" => Some("string"),
+        "byte_buf" => Some("bytes"),
+        "bytes" => Some("byte_buf"),
+        _ => None,
+    };
+    let mut out = vec![
+        ("typed".to_string(), rec(nat.clone())),
+        ("strict".to_string(), json!({"tuple": nat.iter().map(strip_all).collect::<Vec<_>>()})),
+        ("wide".to_string(), rec(nat.iter().map(|t| map_types(t, &widen)).collect())),
+    ];
+    if input["mode"].as_str() != Some("big") {
+        out.push(("swap".to_string(), rec(nat.iter().map(|t| map_types(t, &swap)).collect())));
+        out.push(("anyrec".to_string(), rec(nat.iter().map(|_| json!("any")).collect())));
+        for t in input["targets"].as_array().map(|a| a.as_slice()).unwrap_or(&[]) {
+            out.push((t[0].as_str().unwrap_or("var").to_string(), t[1].clone()));
         }
     }
-    json!({"tuple": [strip_all(&crate::wiregen::natural_target(fieldj))]})
+    out
 }
 
-/// item-wise reads of every row into the record target `ty` (`"any"`: `deserialize_any`)
-fn items_arrow(field: &arrow_schema::FieldRef, arr: &arrow_array::ArrayRef, ty: &Value) -> Vec<Value> {
-    let fields = [field.clone()];
-    let arrays = [arr.clone()];
-    let mut slot = None;
-    let ctor = outcome::run(|| {
-        let de = serde_arrow::Deserializer::from_arrow(&fields, &arrays)?;
-        let n = de.len();
-        slot = Some(de);
-        Ok::<Value, serde_arrow::Error>(json!(n))
-    });
-    match slot {
-        Some(de) => read_items(&de, arrays[0].len(), ty),
-        None => vec![json!({ "ctor": ctor })],
+/// what the crate reads from: one column, or a whole record batch
+enum Src {
+    Col(arrow_schema::FieldRef, arrow_array::ArrayRef),
+    Rb(arrow_array::RecordBatch),
+}
+
+thread_local! {
+    static BULK_TY: std::cell::RefCell<Value> = std::cell::RefCell::new(Value::Null);
+}
+
+/// `T` of `serde_arrow::from_record_batch::<T>`: reads itself as the target in BULK_TY
+struct DynOut(Value);
+
+impl<'de> serde::Deserialize<'de> for DynOut {
+    fn deserialize<D: serde::Deserializer<'de>>(de: D) -> Result<Self, D::Error> {
+        let ty = BULK_TY.with(|t| t.borrow().clone());
+        Target(&ty).deserialize(de).map(DynOut)
     }
 }
 
-/// `Vec<R>::deserialize(Deserializer::from_arrow(..))`: the bulk path of `from_arrow` / `from_record_batch`
-fn bulk_arrow(field: &arrow_schema::FieldRef, arr: &arrow_array::ArrayRef, ty: &Value) -> Value {
-    let fields = [field.clone()];
-    let arrays = [arr.clone()];
-    let seq = json!({ "seq": ty });
-    outcome::run(|| {
-        let de = serde_arrow::Deserializer::from_arrow(&fields, &arrays)?;
-        Target(&seq).deserialize(de)
-    })
+impl Src {
+    fn len(&self) -> usize {
+        use arrow_array::Array;
+        match self {
+            Src::Col(_, a) => a.len(),
+            Src::Rb(rb) => rb.num_rows(),
+        }
+    }
+    fn de(&self) -> Result<serde_arrow::Deserializer<'_>, serde_arrow::Error> {
+        match self {
+            Src::Col(f, a) => serde_arrow::Deserializer::from_arrow(std::slice::from_ref(f), std::slice::from_ref(a)),
+            Src::Rb(rb) => serde_arrow::Deserializer::from_record_batch(rb),
+        }
+    }
+    /// item-wise reads of every row into the record target `ty` (`"any"`: `deserialize_any`)
+    fn items(&self, ty: &Value) -> Vec<Value> {
+        let mut slot = None;
+        let ctor = outcome::run(|| {
+            let de = self.de()?;
+            let n = de.len();
+            slot = Some(de);
+            Ok::<Value, serde_arrow::Error>(json!(n))
+        });
+        match slot {
+            Some(de) => read_items(&de, self.len(), ty),
+            None => vec![json!({ "ctor": ctor })],
+        }
+    }
+    /// `Vec<R>::deserialize(Deserializer::from_arrow(..))`: the bulk path of `from_arrow`; for a record batch
+    /// `serde_arrow::from_record_batch::<Vec<R>>(&batch)` itself
+    fn bulk(&self, ty: &Value) -> Value {
+        let seq = json!({ "seq": ty });
+        match self {
+            Src::Col(..) => outcome::run(|| {
+                let de = self.de()?;
+                Target(&seq).deserialize(de)
+            }),
+            Src::Rb(rb) => {
+                BULK_TY.with(|t| *t.borrow_mut() = seq.clone());
+                outcome::run(|| serde_arrow::from_record_batch::<DynOut>(rb).map(|d| d.0))
+            }
+        }
+    }
 }
 
 fn items_arrow2(field: &arrow2::datatypes::Field, arr: &Box<dyn arrow2::array::Array>, ty: &Value) -> Vec<Value> {
@@ -348,37 +715,116 @@ fn direct_equal(whole: &[Value], slice: &[Value], o: usize, l: usize) -> bool {
     o + l <= whole.len() && slice == &whole[o..o + l]
 }
 
+struct TypedRes {
+    label: String,
+    ty: Value,
+    whole: Vec<Value>,
+    slice: Vec<Value>,
+    whole_bulk: Value,
+    slice_bulk: Value,
+}
+
 struct Results {
     whole_view: Value,
     slice_views: Vec<Value>,
     whole_items: Vec<Value>,
     slice_items: Vec<Value>,
-    typed_ty: Value,
-    whole_typed: Vec<Value>,
-    slice_typed: Vec<Value>,
-    whole_bulk: Value,
-    slice_bulk: Value,
-    strict_ty: Value,
-    whole_strict: Vec<Value>,
-    slice_strict: Vec<Value>,
-    whole_strict_bulk: Value,
-    slice_strict_bulk: Value,
+    typed: Vec<TypedRes>,
     oracle_whole: Value,
     oracle_slice: Value,
 }
 
+fn nulls_from(v: &Value) -> Option<arrow_buffer::NullBuffer> {
+    v.as_array().map(|bs| arrow_buffer::NullBuffer::from(bs.iter().map(|b| b.as_bool().unwrap()).collect::<Vec<bool>>()))
+}
+
+/// mode "asm": the children are built, cut with `Array::slice`, and the parent is assembled over them with `try_new`
+fn assemble(fieldj: &Value, asm: &Value) -> Result<arrow_array::ArrayRef, String> {
+    use arrow_array as aa;
+    use arrow_array::Array;
+    use arrow_buffer::{OffsetBuffer, ScalarBuffer};
+    use arrow_schema::DataType;
+    let es = |e: arrow_schema::ArrowError| e.to_string();
+    let children: Vec<aa::ArrayRef> = asm["children"]
+        .as_array()
+        .unwrap()
+        .iter()
+        .map(|c| {
+            let a = arrowsrc::build_arrow(&c["field"], c["rows"].as_array().unwrap())?;
+            Ok(a.slice(c["window"][0].as_u64().unwrap() as usize, c["window"][1].as_u64().unwrap() as usize))
+        })
+        .collect::<Result<_, String>>()?;
+    let nulls = nulls_from(&asm["validity"]);
+    let ints = |v: &Value| -> Vec<i64> { v.as_array().unwrap().iter().map(|x| x.as_i64().unwrap()).collect() };
+    let dt = arrowsrc::arrow_dt(&fieldj["dt"]);
+    let out: aa::ArrayRef = match (asm["kind"].as_str().unwrap(), dt) {
+        ("Struct", DataType::Struct(fields)) => Arc::new(aa::StructArray::try_new(fields, children, nulls).map_err(es)?),
+        ("List", DataType::List(f)) => {
+            let offs = OffsetBuffer::new(ScalarBuffer::from(ints(&asm["offsets"]).iter().map(|x| *x as i32).collect::<Vec<_>>()));
+            Arc::new(aa::ListArray::try_new(f, offs, children[0].clone(), nulls).map_err(es)?)
+        }
+        ("LargeList", DataType::LargeList(f)) => {
+            let offs = OffsetBuffer::new(ScalarBuffer::from(ints(&asm["offsets"])));
+            Arc::new(aa::LargeListArray::try_new(f, offs, children[0].clone(), nulls).map_err(es)?)
+        }
+        ("Map", DataType::Map(ef, sorted)) => {
+            let DataType::Struct(efs) = ef.data_type().clone() else { return Err("map entries".into()) };
+            let entries = aa::StructArray::try_new(efs, children, None).map_err(es)?;
+            let offs = OffsetBuffer::new(ScalarBuffer::from(ints(&asm["offsets"]).iter().map(|x| *x as i32).collect::<Vec<_>>()));
+            Arc::new(aa::MapArray::try_new(ef, offs, entries, nulls, sorted).map_err(es)?)
+        }
+        ("FixedSizeList", DataType::FixedSizeList(f, n)) => Arc::new(aa::FixedSizeListArray::try_new(f, n, children[0].clone(), nulls).map_err(es)?),
+        ("Union", DataType::Union(ufs, _)) | ("SparseUnion", DataType::Union(ufs, _)) => {
+            let tids = ScalarBuffer::from(ints(&asm["type_ids"]).iter().map(|x| *x as i8).collect::<Vec<_>>());
+            let offs = asm["offsets"].as_array().map(|_| ScalarBuffer::from(ints(&asm["offsets"]).iter().map(|x| *x as i32).collect::<Vec<_>>()));
+            Arc::new(aa::UnionArray::try_new(ufs, tids, offs, children).map_err(es)?)
+        }
+        (k, _) => return Err(format!("assemble: kind {k} does not fit the field")),
+    };
+    Ok(out)
+}
+
+fn read_all(input: &Value, whole: &Src, last: &Src) -> (Vec<Value>, Vec<Value>, Vec<TypedRes>) {
+    let any = json!("any");
+    let whole_items = whole.items(&any);
+    let slice_items = last.items(&any);
+    let typed = record_targets(input)
+        .into_iter()
+        .map(|(label, ty)| TypedRes {
+            whole: whole.items(&ty),
+            slice: last.items(&ty),
+            whole_bulk: whole.bulk(&ty),
+            slice_bulk: last.bulk(&ty),
+            label,
+            ty,
+        })
+        .collect();
+    (whole_items, slice_items, typed)
+}
+
 fn exec_arrow(input: &Value) -> Result<Results, String> {
-    use arrow_array::{Array, ArrayRef, Int32Array, RecordBatch};
+    use arrow_array::{Array, ArrayRef, Int32Array, RecordBatch, StructArray};
     let fieldj = &input["field"];
     let rows = input["rows"].as_array().unwrap();
     let windows = windows_of(input);
-    let whole: ArrayRef = guarded(|| arrowsrc::build_arrow(fieldj, rows))?;
+    let mode = input["mode"].as_str().unwrap_or("");
+    let whole: ArrayRef = guarded(|| if mode == "asm" { assemble(fieldj, &input["assemble"]) } else { arrowsrc::build_arrow(fieldj, rows) })?;
     let field: arrow_schema::FieldRef = Arc::new(arrowsrc::arrow_field(fieldj));
 
     // the chain of slices
+    let mut rbs: Vec<RecordBatch> = Vec::new();
     let chain: Vec<ArrayRef> = guarded(|| {
-        let mut out = Vec::new();
-        if input["batch"].as_bool().unwrap_or(false) {
+        let mut out: Vec<ArrayRef> = Vec::new();
+        if mode == "rb" {
+            // the columns of the batch are the children of the root struct; every step is `RecordBatch::slice`
+            let mut rb = RecordBatch::from(whole.as_any().downcast_ref::<StructArray>().ok_or("rb: not a struct")?.clone());
+            rbs.push(rb.clone());
+            for (o, l) in &windows {
+                rb = rb.slice(*o, *l);
+                rbs.push(rb.clone());
+                out.push(Arc::new(StructArray::from(rb.clone())));
+            }
+        } else if input["batch"].as_bool().unwrap_or(false) {
             let second: ArrayRef = Arc::new(Int32Array::from((0..whole.len() as i32).collect::<Vec<_>>()));
             let schema = Arc::new(arrow_schema::Schema::new(vec![field.clone(), Arc::new(arrow_schema::Field::new("idx", arrow_schema::DataType::Int32, false))]));
             let mut rb = RecordBatch::try_new(schema, vec![whole.clone(), second]).map_err(|e| e.to_string())?;
@@ -397,43 +843,25 @@ fn exec_arrow(input: &Value) -> Result<Results, String> {
     })?;
     let last = chain.last().cloned().unwrap_or_else(|| whole.clone());
 
-    let whole_view = view_or_err(|| marrow::view::View::try_from(whole.as_ref()));
+    // (mode "rb": the view of `StructArray::from(batch)` is the root struct over the columns' views)
+    let whole_view = if mode == "rb" {
+        let sa: ArrayRef = Arc::new(StructArray::from(rbs[0].clone()));
+        view_or_err(|| marrow::view::View::try_from(sa.as_ref()))
+    } else {
+        view_or_err(|| marrow::view::View::try_from(whole.as_ref()))
+    };
     let slice_views = chain.iter().map(|a| view_or_err(|| marrow::view::View::try_from(a.as_ref()))).collect();
-    let any = json!("any");
-    let typed_ty = typed_target(fieldj);
-    let whole_items = items_arrow(&field, &whole, &any);
-    let slice_items = items_arrow(&field, &last, &any);
-    let whole_typed = items_arrow(&field, &whole, &typed_ty);
-    let slice_typed = items_arrow(&field, &last, &typed_ty);
-    let whole_bulk = bulk_arrow(&field, &whole, &typed_ty);
-    let slice_bulk = bulk_arrow(&field, &last, &typed_ty);
-    let strict_ty = strict_target(fieldj);
-    let whole_strict = items_arrow(&field, &whole, &strict_ty);
-    let slice_strict = items_arrow(&field, &last, &strict_ty);
-    let whole_strict_bulk = bulk_arrow(&field, &whole, &strict_ty);
-    let slice_strict_bulk = bulk_arrow(&field, &last, &strict_ty);
+    let (src_whole, src_last) = if mode == "rb" {
+        (Src::Rb(rbs[0].clone()), Src::Rb(rbs.last().unwrap().clone()))
+    } else {
+        (Src::Col(field.clone(), whole.clone()), Src::Col(field.clone(), last.clone()))
+    };
+    let (whole_items, slice_items, typed) = read_all(input, &src_whole, &src_last);
     let oracle = |a: &ArrayRef| match guarded(|| Ok(arrowsrc::arrow_oracle(a.as_ref()))) {
         Ok(v) => Value::Array(v),
         Err(e) => json!({ "err": e }),
     };
-    Ok(Results {
-        whole_view,
-        slice_views,
-        whole_items,
-        slice_items,
-        typed_ty,
-        whole_typed,
-        slice_typed,
-        whole_bulk,
-        slice_bulk,
-        strict_ty,
-        whole_strict,
-        slice_strict,
-        whole_strict_bulk,
-        slice_strict_bulk,
-        oracle_whole: oracle(&whole),
-        oracle_slice: oracle(&last),
-    })
+    Ok(Results { whole_view, slice_views, whole_items, slice_items, typed, oracle_whole: oracle(&whole), oracle_slice: oracle(&last) })
 }
 
 fn exec_arrow2(input: &Value) -> Result<Results, String> {
@@ -456,36 +884,20 @@ fn exec_arrow2(input: &Value) -> Result<Results, String> {
     let whole_view = view_or_err(|| marrow::view::View::try_from(whole.as_ref()));
     let slice_views = chain.iter().map(|a| view_or_err(|| marrow::view::View::try_from(a.as_ref()))).collect();
     let any = json!("any");
-    let typed_ty = typed_target(fieldj);
     let whole_items = items_arrow2(&field, &whole, &any);
     let slice_items = items_arrow2(&field, &last, &any);
-    let whole_typed = items_arrow2(&field, &whole, &typed_ty);
-    let slice_typed = items_arrow2(&field, &last, &typed_ty);
-    let whole_bulk = bulk_arrow2(&field, &whole, &typed_ty);
-    let slice_bulk = bulk_arrow2(&field, &last, &typed_ty);
-    let strict_ty = strict_target(fieldj);
-    let whole_strict = items_arrow2(&field, &whole, &strict_ty);
-    let slice_strict = items_arrow2(&field, &last, &strict_ty);
-    let whole_strict_bulk = bulk_arrow2(&field, &whole, &strict_ty);
-    let slice_strict_bulk = bulk_arrow2(&field, &last, &strict_ty);
-    Ok(Results {
-        whole_view,
-        slice_views,
-        whole_items,
-        slice_items,
-        typed_ty,
-        whole_typed,
-        slice_typed,
-        whole_bulk,
-        slice_bulk,
-        strict_ty,
-        whole_strict,
-        slice_strict,
-        whole_strict_bulk,
-        slice_strict_bulk,
-        oracle_whole: Value::Null,
-        oracle_slice: Value::Null,
-    })
+    let typed = record_targets(input)
+        .into_iter()
+        .map(|(label, ty)| TypedRes {
+            whole: items_arrow2(&field, &whole, &ty),
+            slice: items_arrow2(&field, &last, &ty),
+            whole_bulk: bulk_arrow2(&field, &whole, &ty),
+            slice_bulk: bulk_arrow2(&field, &last, &ty),
+            label,
+            ty,
+        })
+        .collect();
+    Ok(Results { whole_view, slice_views, whole_items, slice_items, typed, oracle_whole: Value::Null, oracle_slice: Value::Null })
 }
 
 pub fn exec(input: &Value) -> Value {
@@ -515,16 +927,15 @@ pub fn exec(input: &Value) -> Value {
             obj.insert("slice_views".into(), Value::Array(r.slice_views));
             obj.insert("whole_items".into(), Value::Array(r.whole_items));
             obj.insert("slice_items".into(), Value::Array(r.slice_items));
-            obj.insert("typed_ty".into(), r.typed_ty);
-            obj.insert("whole_typed".into(), Value::Array(r.whole_typed));
-            obj.insert("slice_typed".into(), Value::Array(r.slice_typed));
-            obj.insert("whole_typed_bulk".into(), r.whole_bulk);
-            obj.insert("slice_typed_bulk".into(), r.slice_bulk);
-            obj.insert("strict_ty".into(), r.strict_ty);
-            obj.insert("whole_strict".into(), Value::Array(r.whole_strict));
-            obj.insert("slice_strict".into(), Value::Array(r.slice_strict));
-            obj.insert("whole_strict_bulk".into(), r.whole_strict_bulk);
-            obj.insert("slice_strict_bulk".into(), r.slice_strict_bulk);
+            obj.insert("labels".into(), json!(r.typed.iter().map(|t| t.label.clone()).collect::<Vec<_>>()));
+            for t in r.typed {
+                let l = &t.label;
+                obj.insert(format!("{l}_ty"), t.ty);
+                obj.insert(format!("whole_{l}"), Value::Array(t.whole));
+                obj.insert(format!("slice_{l}"), Value::Array(t.slice));
+                obj.insert(format!("whole_{l}_bulk"), t.whole_bulk);
+                obj.insert(format!("slice_{l}_bulk"), t.slice_bulk);
+            }
             obj.insert("oracle_whole".into(), r.oracle_whole);
             obj.insert("oracle_slice".into(), r.oracle_slice);
             obj.insert("direct_equal".into(), json!(eq));
